@@ -183,16 +183,16 @@ HARNESSES = {
         "link_flags": ["-rdynamic"],
         "extra_targets": _rt_extra,
         "level": {"C09": "fault_enumeration"},
-        "quick": {"rc_cases": 160, "rc_size": 40},
-        "thorough": {"rc_cases": 4000, "rc_size": 60},
+        "quick": {"rc_cases": 1500, "rc_size": 40},
+        "thorough": {"rc_cases": 40000, "rc_size": 60},
     },
     "simcam": {
         "props": ["C17", "C18"],
         "sources": _simcam_sources,
         "engines": ["rc", "rp"],
         "link_flags": ["-fsanitize=undefined"],
-        "quick": {"rc_cases": 1200, "rc_size": 40},
-        "thorough": {"rc_cases": 20000, "rc_size": 60},
+        "quick": {"rc_cases": 4000, "rc_size": 40},
+        "thorough": {"rc_cases": 80000, "rc_size": 60},
     },
     "stor": {
         "props": ["C14", "C15", "C16"],
@@ -216,8 +216,8 @@ HARNESSES = {
         "props": ["C01", "C02", "C03"],
         "sources": _chan_sources,
         "engines": ["rc", "rp"],
-        "quick": {"rc_cases": 30000, "rc_size": 60},
-        "thorough": {"rc_cases": 400000, "rc_size": 120},
+        "quick": {"rc_cases": 100000, "rc_size": 60},
+        "thorough": {"rc_cases": 2000000, "rc_size": 120},
     },
     "props": {
         "props": ["C13"],
